@@ -6,6 +6,7 @@ package props
 
 import (
 	"bytes"
+	"math"
 	"encoding/hex"
 	"encoding/json"
 	"fmt"
@@ -261,6 +262,31 @@ type tstruct struct {
 	C int32
 }
 
+// tfloat is a value type with floating-point fields: +0 and -0 (and NaNs with
+// different payloads) are equal for Go but have different encodings, so such
+// values are compared by bit pattern.
+type tfloat struct {
+	F float64
+	G float32
+}
+
+func tfloatOf(p []byte) tfloat {
+	q := pad(p, 12)
+	return tfloat{F: math.Float64frombits(le(q, 8)), G: math.Float32frombits(uint32(le(q[8:], 4)))}
+}
+
+func tfloatBitsEq(a, b tfloat) bool {
+	return math.Float64bits(a.F) == math.Float64bits(b.F) && math.Float32bits(a.G) == math.Float32bits(b.G)
+}
+
+var typeEncF = func() encode.Encoder {
+	e, err := encode.NewTypeEncoder(tfloat{})
+	if err != nil {
+		panic(err)
+	}
+	return e
+}()
+
 type encSpec struct {
 	name  string
 	enc   encode.Encoder
@@ -375,6 +401,13 @@ func init() {
 	ou.typ = reflect.TypeOf((*interface{})(nil)).Elem()
 	add(ou)
 
+	tf := &encSpec{name: "TypeEncF", enc: typeEncF, width: 12}
+	tf.value = func(p []byte) interface{} { return tfloatOf(p) }
+	tf.ref = func(p []byte) []byte { return pad(p, 12) }
+	tf.want = tf.value
+	tf.typ = reflect.TypeOf(tfloat{})
+	add(tf)
+
 	// Dummy documents "Decode always returns nil" and encodes to nothing.
 	du := &encSpec{name: "Dummy", enc: encode.Dummy{}, width: 0}
 	du.value = func(p []byte) interface{} { return int32(le(p, 4)) }
@@ -437,7 +470,7 @@ func (strictU32) GetSize(d interface{}) int {
 }
 func (strictU32) GetEncodedSize(b []byte) int { return 4 }
 
-var fixedEncNames = []string{"I8", "I16", "I32", "I64", "U16", "U32", "U64", "Int", "Bytes1", "Bytes3", "Bytes5", "Bytes300", "TypeEnc", "StrictU32"}
+var fixedEncNames = []string{"I8", "I16", "I32", "I64", "U16", "U32", "U64", "Int", "Bytes1", "Bytes3", "Bytes5", "Bytes300", "TypeEnc", "TypeEncF", "StrictU32"}
 var allEncNames = append(append([]string{}, fixedEncNames...), "String16", "Dummy", "OptU16")
 
 func (c *Case) spec() *encSpec {
@@ -451,6 +484,22 @@ func (c *Case) spec() *encSpec {
 // encoder returns the encoder handed to NewSlimTrie. The stock encoders have
 // value receivers, so &encode.I32{} is the same encoder as encode.I32{}: the two
 // spellings are used in turn (a deterministic function of the case).
+// keyOnlyEncoder: a key-only index never encodes or decodes a value. NewSlimTrie
+// documents a nil encoder for that, and any other encoder is as good. Used only
+// for the build of a key-only case and for the instance its OWN stream is loaded
+// into (an instance that will later receive other streams needs their encoder).
+func (c *Case) keyOnlyEncoder() encode.Encoder {
+	if !c.HasVals {
+		switch (len(c.Keys) + len(c.Enc)) % 4 {
+		case 1:
+			return nil
+		case 2:
+			return encode.String16{}
+		}
+	}
+	return c.encoder()
+}
+
 func (c *Case) encoder() encode.Encoder {
 	e := c.spec().enc
 	if (len(c.Keys)+len(c.Vals))%3 != 1 {
@@ -670,6 +719,12 @@ func guardHang(prop string, c *Case, s *Stats, what string, f func() error) erro
 // no Opt argument instead of Opt{} when every option field is nil, and
 // []interface{} instead of a typed slice for the values.
 func (c *Case) build() (*trie.SlimTrie, error) {
+	return c.buildEnc(c.keyOnlyEncoder())
+}
+
+// buildEnc builds with an explicit encoder (an instance that will later be
+// loaded with valued streams needs the real encoder even if it starts key-only).
+func (c *Case) buildEnc(enc encode.Encoder) (*trie.SlimTrie, error) {
 	vals := c.typedValues()
 	sel := len(c.Keys) + len(c.Enc)
 	if vals != nil && sel%5 == 2 {
@@ -681,9 +736,9 @@ func (c *Case) build() (*trie.SlimTrie, error) {
 		vals = boxed
 	}
 	if c.Opt == (OptSpec{}) && sel%2 == 0 {
-		return trie.NewSlimTrie(c.encoder(), c.keys(), vals)
+		return trie.NewSlimTrie(enc, c.keys(), vals)
 	}
-	return trie.NewSlimTrie(c.encoder(), c.keys(), vals, c.Opt.opt())
+	return trie.NewSlimTrie(enc, c.keys(), vals, c.Opt.opt())
 }
 
 // loadTarget is the instance a stream is loaded into: a new empty trie, or
@@ -692,7 +747,11 @@ func loadTarget(c *Case) *trie.SlimTrie {
 	if c.Over {
 		return usedInstance(c)
 	}
-	return emptyTrie(c)
+	st, err := trie.NewSlimTrie(c.keyOnlyEncoder(), nil, nil)
+	if err != nil {
+		panic(err)
+	}
+	return st
 }
 
 func emptyTrie(c *Case) *trie.SlimTrie {
@@ -881,6 +940,10 @@ func usedInstance(c *Case) *trie.SlimTrie {
 }
 
 func valEq(a, b interface{}) bool {
+	if af, ok := a.(tfloat); ok {
+		bf, ok2 := b.(tfloat)
+		return ok2 && tfloatBitsEq(af, bf)
+	}
 	if ab, ok := a.([]byte); ok {
 		bb, ok2 := b.([]byte)
 		return ok2 && bytes.Equal(ab, bb)
